@@ -25,6 +25,8 @@ def plan(tier, seed):
     jobs.append(ch("C08", "vf/pyshim/h_wfile.py", "h_append_scheme", t,
                    ["api.ParquetFile.write_row_groups", "writer.write_multi", "writer.partition_on_columns",
                     "api.paths_to_cats"]))
+    jobs.append(dict(name="C08-lemma-float-labels", kind="pyfunc", timeout=300,
+                     payload=dict(func="vf.pyshim.lemma_tables:float_labels")))
     extra = dict(
         explanation="Write side (real partition_on_columns -> path_string / join_path) and read side (real "
                     "paths_to_cats, _path_to_cats, val_to_num/val_from_meta and the partition lines of "
